@@ -806,6 +806,39 @@ def self_aliases_inlined(node):
     return new
 
 
+def continues_as_nesting(fn):
+    """a copy of `fn` in which, inside loop bodies, `if T: [..;] continue` followed by REST is written `if T: [..] else: REST` - and, when the branch holds nothing but the
+    continue, `if not T: REST` (a leading `not` of T cancelled) - the same iterations do the same work; a normal form for rules that look for `if <test>: <action>`"""
+    from . import norm as N_
+    new = N_.clone(fn)
+
+    def neg(t):
+        if isinstance(t, ast.UnaryOp) and isinstance(t.op, ast.Not):
+            return t.operand
+        return ast.UnaryOp(op=ast.Not(), operand=t)
+
+    def rewrite(stmts, in_loop):
+        out = []
+        for k, st in enumerate(stmts):
+            for f_ in ('body', 'orelse', 'finalbody'):
+                b_ = getattr(st, f_, None)
+                if isinstance(b_, list) and not isinstance(st, (ast.FunctionDef, ast.ClassDef)):
+                    setattr(st, f_, rewrite(b_, in_loop or isinstance(st, (ast.For, ast.While))) if not (isinstance(st, (ast.For, ast.While)) and f_ == 'orelse') else b_)
+            if in_loop and isinstance(st, ast.If) and not st.orelse and st.body and isinstance(st.body[-1], ast.Continue) and k + 1 < len(stmts):
+                rest = rewrite(stmts[k + 1:], in_loop)
+                if len(st.body) == 1:
+                    out.append(ast.copy_location(ast.If(test=neg(st.test), body=rest, orelse=[]), st))
+                else:
+                    out.append(ast.copy_location(ast.If(test=st.test, body=st.body[:-1], orelse=rest), st))
+                ast.fix_missing_locations(out[-1])
+                return out
+            out.append(st)
+        return out
+    new.body = rewrite(new.body, False)
+    set_parents(new)
+    return new
+
+
 def descending_ranges_ascending(fn):
     """a copy of `fn` in which every `for v in range(A, B, -1): BODY` is written `for v__k in range(A - B): v = A - v__k; BODY` - the same indices in the same order, through
     an ascending counter (the engines for index sets know ranges with step 1 only)"""
@@ -842,17 +875,21 @@ def self_aliases_inlined_deep(node, back_to_names=()):
     for fn in [f for f in ast.walk(new) if isinstance(f, ast.FunctionDef)]:
         stores = {}
         attr_stores = set()
+        bare = set(id(a_.target) for a_ in ast.walk(fn) if isinstance(a_, ast.AnnAssign) and a_.value is None)          # `cdef int v` declares, it assigns nothing
         for x in ast.walk(fn):
-            if isinstance(x, ast.Name) and isinstance(x.ctx, (ast.Store, ast.Del)):
+            if isinstance(x, ast.Name) and isinstance(x.ctx, (ast.Store, ast.Del)) and id(x) not in bare:
                 stores[x.id] = stores.get(x.id, 0) + 1
             if isinstance(x, ast.Attribute) and isinstance(x.ctx, (ast.Store, ast.Del)) and isinstance(x.value, ast.Name) and x.value.id == 'self':
                 attr_stores.add(x.attr)
         params = set(a.arg for a in fn.args.args + fn.args.kwonlyargs)
         good = {}
         for st in list(ast.walk(fn)):
-            if not (isinstance(st, ast.Assign) and len(st.targets) == 1 and isinstance(st.targets[0], ast.Name)):
+            if isinstance(st, ast.Assign) and len(st.targets) == 1 and isinstance(st.targets[0], ast.Name):
+                v, nm = st.value, st.targets[0].id
+            elif isinstance(st, ast.AnnAssign) and isinstance(st.target, ast.Name) and st.value is not None:          # `cdef int v = self.H`
+                v, nm = st.value, st.target.id
+            else:
                 continue
-            v, nm = st.value, st.targets[0].id
             if not (isinstance(v, ast.Attribute) and isinstance(v.value, ast.Name) and v.value.id == 'self'):
                 continue
             if stores.get(nm, 0) != 1 or nm in params or v.attr in attr_stores:
